@@ -474,6 +474,16 @@ func avValue(form, name, nkind, emb string) (string, string, error) {
 		e = avW(c) + " && " + avW("'a'") + " || " + avW("'b'")
 	case "nand":
 		e = "!(" + avW(c) + " && " + avW("'a'") + ") && " + avW("'b'")
+	case "bracket":
+		prop, ok := map[string]string{"github": "sha", "runner": "os", "job": "status", "strategy": "job-index"}[strings.ToLower(name)]
+		switch {
+		case name == "": // the neutral placeholder of the same shape
+			e = avW(c)
+		case !ok:
+			return "", "", fmt.Errorf("embedding bracket is not defined for %q", name)
+		default:
+			e = avW(c + "['" + prop + "']")
+		}
 	default:
 		if !strings.HasPrefix(emb, "f:") {
 			return "", "", fmt.Errorf("unknown embedding %q", emb)
